@@ -84,6 +84,7 @@ class Canon:
         self.variant = {}            # (reference adt path, current variant) -> reference variant
         self.field = {}              # (reference adt path, reference variant, current field) -> reference field
         self.log = []
+        self.reference = reference
         if reference is None:
             return
         cur = {a['path']: a for a in header.get('adts', [])}
